@@ -7,7 +7,7 @@ regenerated constants `Facts.MaxColumns`, `Facts.MinColumns`, `Facts.TotalRows`;
 `limits_ok` pins the values the arithmetic below relies on, so an edit of the
 constants in templates.go breaks this file.
 -/
-import XlModel.Lemmas.Ref5
+import XlModel.Lemmas.Ref8
 
 namespace XlModel.Props.C20
 open XlModel XlModel.Ref
@@ -224,6 +224,150 @@ theorem range_encode_decode (c1 r1 c2 r2 : Nat) (abs : Bool)
   rw [e, splitColon_two _ _ (nc c1 r1) (nc c2 r2)]
   simp only [d1, d2]
 
+/-! ## `JoinCellName` / `SplitCellName` agree with the cell codecs -/
+
+/-- **exact acceptance of `JoinCellName`** (as transcribed): it accepts iff the
+column name is non-empty and consists of ASCII letters only and the row is at
+least 1 — there is NO upper bound on the row and none on the column (`ZZZZ`,
+row 1048577 are joined): it is a purely syntactic inverse of `SplitCellName`,
+the grid limits are enforced by the cell codecs only. The result is the
+upper-cased letters followed by the decimal row. -/
+theorem join_accepts_iff (col : List Char) (row : Int) :
+    (∃ s, joinCellName col row = .ok s) ↔
+      col ≠ [] ∧ (∀ c ∈ col, isLetter c = true) ∧ 1 ≤ row := by
+  constructor
+  · rintro ⟨s, h⟩
+    obtain ⟨a, b, c, _⟩ := (joinCellName_ok_iff col row s).mp h
+    exact ⟨a, b, c⟩
+  · rintro ⟨a, b, c⟩
+    exact ⟨_, (joinCellName_ok_iff col row _).mpr ⟨a, b, c, rfl⟩⟩
+
+/-- the value `JoinCellName` returns -/
+theorem join_value (col : List Char) (row : Int) (s : List Char) (h : joinCellName col row = .ok s) :
+    s = col.map toUpper ++ itoaAux row.toNat :=
+  ((joinCellName_ok_iff col row s).mp h).2.2.2
+
+/-- **join → split**: for every accepted `(col, row)` (row inside Go's `int`),
+`SplitCellName (JoinCellName col row) = (upper col, row)`. Holds outside the grid too. -/
+theorem join_split (col : List Char) (row : Int) (s : List Char)
+    (h : joinCellName col row = .ok s) (hint : row < 9223372036854775808) :
+    splitCellName s = .ok (col.map toUpper, row) :=
+  split_of_join h hint
+
+/-- **split → join**: for every accepted cell name `s` (accepted by
+`CellNameToCoordinates`, i.e. every strict A1 spelling inside the grid, absolute
+markers and leading zeros included), `SplitCellName s` returns a column name that
+`ColumnNameToNumber` decodes to the cell's column and the cell's row, and
+`JoinCellName` of the two parts is the canonical relative spelling of the same
+cell: exactly what `CoordinatesToCellName` returns for its coordinates, which
+decodes to the same coordinates again. -/
+theorem split_join (s : List Char) (ci ri : Int) (h : cellNameToCoordinates s = .ok (ci, ri)) :
+    ∃ col canon, splitCellName s = .ok (col, ri) ∧ columnNameToNumber col = .ok ci ∧
+      joinCellName col ri = .ok canon ∧ coordinatesToCellName ci ri false = .ok canon ∧
+      cellNameToCoordinates canon = .ok (ci, ri) := by
+  obtain ⟨c, r, hs, rfl, rfl⟩ := shape_of_decode h
+  obtain ⟨L, hsplit, hraw, hLl, hL, hjoin⟩ := split_join_of_shape hs
+  obtain ⟨_, _, _, _, _, _, _, _, _, _, _, _, hc1, hc2, _, hr1, hr2⟩ := hs
+  have henc := cell_encode_eq c r false hc1 hc2 hr1 hr2
+  simp only [Bool.false_eq_true, if_false, List.nil_append, List.append_nil] at henc
+  refine ⟨L, _, hsplit, (columnNameToNumber_ok_iff L c).mpr ⟨hL, c, hraw, hc2, rfl⟩, hjoin, henc, ?_⟩
+  have := decode_of_shape (cell_encode_shape c r false hc1 hc2 hr1 hr2)
+  simpa using this
+
+/-- the grid codec factors through split/join: on the whole grid
+`JoinCellName (ColumnNumberToName c) r = CoordinatesToCellName c r`. -/
+theorem join_eq_cell_encode (c r : Nat) (hc1 : 1 ≤ c) (hc2 : c ≤ Facts.MaxColumns)
+    (hr1 : 1 ≤ r) (hr2 : r ≤ Facts.TotalRows) :
+    joinCellName (numToName c) (r : Int) = coordinatesToCellName (c : Int) (r : Int) false := by
+  have henc := cell_encode_eq c r false hc1 hc2 hr1 hr2
+  simp only [Bool.false_eq_true, if_false, List.nil_append, List.append_nil] at henc
+  rw [henc, joinCellName_ok_iff]
+  refine ⟨numToName_ne_nil hc1, numToName_letters c, by omega, ?_⟩
+  have : (numToName c).map toUpper = numToName c := map_toUpper_of_up _ (numToName_upper c)
+  rw [this]; simp
+
+/-- what is NOT true (and is outside the statement): `SplitCellName` is a syntactic
+splitter, not a validator. It accepts names whose column part contains digits or
+spaces between letters (`A1B2` → (`A1B`, 2)) and names outside the grid; both are
+rejected by `JoinCellName` resp. by the cell codec, so no such string is mapped to
+a coordinate (that is `rejects_non_a1`). -/
+theorem split_is_syntactic :
+    splitCellName ['A', '1', 'B', '2'] = .ok (['A', '1', 'B'], 2) ∧
+    (∃ e, joinCellName ['A', '1', 'B'] 2 = .error e) ∧
+    (∃ e, cellNameToCoordinates ['A', '1', 'B', '2'] = .error e) ∧
+    splitCellName ['X', 'F', 'E', '1'] = .ok (['X', 'F', 'E'], 1) ∧
+    joinCellName ['X', 'F', 'E'] 1048577 = .ok ['X', 'F', 'E', '1', '0', '4', '8', '5', '7', '7'] := by
+  refine ⟨by decide +kernel, ⟨.colName, by decide +kernel⟩, ⟨.colName, by decide +kernel⟩,
+    by decide +kernel, by decide +kernel⟩
+
+/-! ## Exact acceptance of `rangeRefToCoordinates` -/
+
+/-- **exact acceptance of the range decoder**: `rangeRefToCoordinates ref` succeeds
+with `(c1, r1, c2, r2)` iff `ref` is `A:B` or `A:B:<anything>` where `A` and `B`
+contain no colon and, after EVERY `$` in them has been deleted, are strict A1
+references inside the grid denoting `(c1, r1)` and `(c2, r2)`. -/
+theorem range_decode_accepts_iff (ref : List Char) (c1 r1 c2 r2 : Int) :
+    rangeRefToCoordinates ref = .ok (c1, r1, c2, r2) ↔
+      ∃ n1 m1 n2 m2 : Nat, c1 = n1 ∧ r1 = m1 ∧ c2 = n2 ∧ r2 = m2 ∧ RangeLoose ref n1 m1 n2 m2 :=
+  rangeRef_ok_iff ref c1 r1 c2 r2
+
+/-- completeness: every strict range reference `cell:cell` (each corner with its
+own optional absolute markers, any casing, leading zeros) is accepted and decoded
+to the corners it denotes — `range_encode_decode` for every spelling, not only
+the encoder's output. -/
+theorem range_strict_accepted (ref : List Char) (c1 r1 c2 r2 : Nat)
+    (h : parseRangeStrict ref = some (c1, r1, c2, r2)) :
+    rangeRefToCoordinates ref = .ok ((c1 : Int), (r1 : Int), (c2 : Int), (r2 : Int)) :=
+  (rangeRef_ok_iff ref _ _ _ _).mpr ⟨c1, r1, c2, r2, rfl, rfl, rfl, rfl,
+    rangeLoose_of_strict ((parseRangeStrict_iff ref c1 r1 c2 r2).mp h)⟩
+
+/-- strictness holds only for corner *values*: whatever is accepted lies inside the grid -/
+theorem range_decode_in_grid (ref : List Char) (c1 r1 c2 r2 : Int)
+    (h : rangeRefToCoordinates ref = .ok (c1, r1, c2, r2)) :
+    1 ≤ c1 ∧ c1 ≤ (Facts.MaxColumns : Int) ∧ 1 ≤ r1 ∧ r1 ≤ (Facts.TotalRows : Int) ∧
+    1 ≤ c2 ∧ c2 ≤ (Facts.MaxColumns : Int) ∧ 1 ≤ r2 ∧ r2 ≤ (Facts.TotalRows : Int) := by
+  obtain ⟨n1, m1, n2, m2, rfl, rfl, rfl, rfl, _, _, _, _, _, _, _, hs1, hs2⟩ :=
+    (rangeRef_ok_iff ref _ _ _ _).mp h
+  obtain ⟨_, _, _, _, _, _, _, _, _, _, _, _, a1, a2, _, a3, a4⟩ := hs1
+  obtain ⟨_, _, _, _, _, _, _, _, _, _, _, _, b1, b2, _, b3, b4⟩ := hs2
+  omega
+
+/-- **finding (open)**: the range decoder is NOT strict. It maps strings that are not
+`cell:cell` references to coordinates: a `$` anywhere (`A$$1:B2`, `A1$:$$B2$`), and
+anything after a second colon (`A1:B2:junk`, and — through `MergeCell(sheet,
+"D1:E2", "F9")`, which concatenates its two cell-name arguments with `:` — a
+whole range passed as a cell name, the second argument being ignored). Public APIs
+that take cell names and decode them through it (MergeCell, UnmergeCell) therefore
+accept strings that are not A1 references: oracle signatures
+`rngapi:accept-non-a1:stray-dollar`, `rngapi:accept-non-a1:extra-colon-part`. -/
+theorem finding_range_decode_not_strict :
+    (rangeRefToCoordinates ['A', '$', '$', '1', ':', 'B', '2'] = .ok (1, 1, 2, 2) ∧
+      parseRangeStrict ['A', '$', '$', '1', ':', 'B', '2'] = none) ∧
+    (rangeRefToCoordinates ['A', '1', ':', 'B', '2', ':', 'j', 'u', 'n', 'k'] = .ok (1, 1, 2, 2) ∧
+      parseRangeStrict ['A', '1', ':', 'B', '2', ':', 'j', 'u', 'n', 'k'] = none) ∧
+    (rangeRefToCoordinates (['D', '1', ':', 'E', '2'] ++ [':'] ++ ['F', '9']) = .ok (4, 1, 5, 2) ∧
+      parseA1 ['D', '1', ':', 'E', '2'] = none) := by
+  refine ⟨⟨by decide +kernel, by decide +kernel⟩, ⟨by decide +kernel, by decide +kernel⟩,
+    ⟨by decide +kernel, by decide +kernel⟩⟩
+
+/-- what remains true of the lenient decoder (`…_partial`: the missing hypothesis is
+"`ref` has exactly one colon and no `$` outside the two optional positions of each
+corner", i.e. `parseRangeStrict ref ≠ none`): on strict references it is exact. -/
+theorem range_decode_strict_partial (ref : List Char) (c1 r1 c2 r2 : Int)
+    (hstrict : (parseRangeStrict ref).isSome = true) :
+    rangeRefToCoordinates ref = .ok (c1, r1, c2, r2) ↔
+      ∃ n1 m1 n2 m2 : Nat, c1 = n1 ∧ r1 = m1 ∧ c2 = n2 ∧ r2 = m2 ∧
+        parseRangeStrict ref = some (n1, m1, n2, m2) := by
+  obtain ⟨⟨a, b, c, d⟩, hp⟩ := Option.isSome_iff_exists.mp hstrict
+  have hacc := range_strict_accepted ref a b c d hp
+  constructor
+  · intro h
+    rw [hacc] at h
+    simp only [Except.ok.injEq, Prod.mk.injEq] at h
+    exact ⟨a, b, c, d, h.1.symm, h.2.1.symm, h.2.2.1.symm, h.2.2.2.symm, hp⟩
+  · rintro ⟨n1, m1, n2, m2, rfl, rfl, rfl, rfl, hq⟩
+    exact range_strict_accepted ref n1 m1 n2 m2 hq
+
 /-! ## Spellings: every accepted spelling of a cell addresses the same cell -/
 
 /-- the getter's normalisation (upper-casing) does not change what is denoted -/
@@ -288,5 +432,187 @@ theorem spellings_example :
     getterFinds ['$', 'b', '$', '0', '2'] = some true ∧
     getterFinds ['B', '0', '2'] = some true := by
   decide +kernel
+
+/-! ## Lookup paths: every family of cell-name APIs, every accepted spelling
+
+`XlModel.RefApi` transcribes what each family of APIs does with the caller's
+spelling before touching the worksheet: P `prepareCell` (all setters), G
+`getCellStringFunc` (GetCellValue/Formula/Type), D direct decode (GetCellStyle,
+SetCellStyle, AddPicture/GetPictures, form controls), R `GetCellRichText`,
+H-set / H-get (hyperlinks, behind a `SplitCellName` gate), C-add / C-del (comments). -/
+
+/-- **full strength, six paths**: every accepted spelling is mapped by every path to
+the canonical key of the cell it denotes — the grid position `(c, r)` or the
+canonical relative reference of `(c, r)`. -/
+theorem paths_canonical (s : List Char) (ci ri : Int) (h : cellNameToCoordinates s = .ok (ci, ri)) :
+    ∃ canon, coordinatesToCellName ci ri false = .ok canon ∧
+      pathPrepare s = some (.xy ci ri) ∧ pathGetString s = some (.ref canon) ∧
+      pathDirect s = some (.xy ci ri) ∧ pathRichGet s = some (.xy ci ri) ∧
+      pathLinkSet s = some (.ref canon) ∧ pathLinkGet s = some (.ref canon) := by
+  obtain ⟨_, _, _, _, canon, hcanon, hdec⟩ := cell_decode_encode s ci ri h
+  have hu := upper_same_cell s ci ri h
+  obtain ⟨q, hq⟩ := split_ok_of_decode h
+  have hm : mergeParse s = some canon := by
+    unfold mergeParse apiRef getterRef setterRef
+    simp only [hu, hcanon]
+  refine ⟨canon, hcanon, ?_, ?_, ?_, ?_, ?_, ?_⟩
+  · unfold pathPrepare; simp only [hm, hdec]
+  · unfold pathGetString; simp only [hm, hdec, hcanon]
+  · unfold pathDirect; simp only [h]
+  · unfold pathRichGet pathPrepare; simp only [hm, hdec]
+  · unfold pathLinkSet; simp only [hq, hm]
+  · unfold pathLinkGet; simp only [hq, h, hcanon]
+
+/-- **strictness per path**: each of the paths (and the validity check of `AddComment`)
+accepts a string iff it is a strict A1 reference inside the grid — no path widens
+acceptance by its normalisation (upper-casing, `SplitCellName` gate), none narrows it. -/
+theorem paths_accept_iff_a1 (s : List Char) :
+    ((pathPrepare s).isSome = true ↔ ∃ c r, parseA1 s = some (c, r)) ∧
+    ((pathGetString s).isSome = true ↔ ∃ c r, parseA1 s = some (c, r)) ∧
+    ((pathDirect s).isSome = true ↔ ∃ c r, parseA1 s = some (c, r)) ∧
+    ((pathRichGet s).isSome = true ↔ ∃ c r, parseA1 s = some (c, r)) ∧
+    ((pathLinkSet s).isSome = true ↔ ∃ c r, parseA1 s = some (c, r)) ∧
+    ((pathLinkGet s).isSome = true ↔ ∃ c r, parseA1 s = some (c, r)) ∧
+    ((pathCommentAdd s).isSome = true ↔ ∃ c r, parseA1 s = some (c, r)) := by
+  have back : (∃ c r, parseA1 s = some (c, r)) → ∃ ci ri, cellNameToCoordinates s = .ok (ci, ri) := by
+    rintro ⟨c, r, hp⟩; exact ⟨_, _, spec_sound s c r hp⟩
+  have viaMerge : ∀ {canon}, mergeParse s = some canon → ∃ c r, parseA1 s = some (c, r) := by
+    intro canon hm
+    exact (api_accepts_iff_a1 s).mp (by unfold mergeParse at hm; rw [hm]; rfl)
+  have viaDirect : ∀ {ci ri}, cellNameToCoordinates s = .ok (ci, ri) → ∃ c r, parseA1 s = some (c, r) := by
+    intro ci ri hd
+    obtain ⟨cn, rn, hp, _, _⟩ := rejects_non_a1 s ci ri hd
+    exact ⟨cn, rn, hp⟩
+  refine ⟨⟨?_, ?_⟩, ⟨?_, ?_⟩, ⟨?_, ?_⟩, ⟨?_, ?_⟩, ⟨?_, ?_⟩, ⟨?_, ?_⟩, ⟨?_, ?_⟩⟩
+  · intro h; unfold pathPrepare at h
+    split at h
+    · rename_i canon hm; exact viaMerge hm
+    · simp at h
+  · intro hp; obtain ⟨ci, ri, hd⟩ := back hp
+    obtain ⟨_, _, h1, _⟩ := paths_canonical s ci ri hd; simp [h1]
+  · intro h; unfold pathGetString at h
+    split at h
+    · rename_i canon hm; exact viaMerge hm
+    · simp at h
+  · intro hp; obtain ⟨ci, ri, hd⟩ := back hp
+    obtain ⟨_, _, _, h1, _⟩ := paths_canonical s ci ri hd; simp [h1]
+  · intro h; unfold pathDirect at h
+    split at h
+    · rename_i c r hd; exact viaDirect hd
+    · simp at h
+  · intro hp; obtain ⟨ci, ri, hd⟩ := back hp
+    obtain ⟨_, _, _, _, h1, _⟩ := paths_canonical s ci ri hd; simp [h1]
+  · intro h; unfold pathRichGet pathPrepare at h
+    split at h
+    · rename_i canon hm; exact viaMerge hm
+    · simp at h
+  · intro hp; obtain ⟨ci, ri, hd⟩ := back hp
+    obtain ⟨_, _, _, _, _, h1, _⟩ := paths_canonical s ci ri hd; simp [h1]
+  · intro h; unfold pathLinkSet at h
+    split at h
+    · simp at h
+    · split at h
+      · rename_i canon hm; exact viaMerge hm
+      · simp at h
+  · intro hp; obtain ⟨ci, ri, hd⟩ := back hp
+    obtain ⟨_, _, _, _, _, _, h1, _⟩ := paths_canonical s ci ri hd; simp [h1]
+  · intro h; unfold pathLinkGet at h
+    split at h
+    · simp at h
+    · split at h
+      · rename_i c r hd; exact viaDirect hd
+      · simp at h
+  · intro hp; obtain ⟨ci, ri, hd⟩ := back hp
+    obtain ⟨_, _, _, _, _, _, _, h1⟩ := paths_canonical s ci ri hd; simp [h1]
+  · intro h; unfold pathCommentAdd at h
+    split at h
+    · rename_i p hd; exact viaDirect (ci := p.1) (ri := p.2) hd
+    · simp at h
+  · intro hp; obtain ⟨ci, ri, hd⟩ := back hp
+    unfold pathCommentAdd; simp [hd]
+
+/-- **paired setters and getters, five families**: for any two accepted spellings
+`s`, `t` of one cell, what a writer called with `s` stored is found by the matching
+reader called with `t` — value/int/formula/type (P/G), style and pictures (D/D),
+rich text (P/R), hyperlinks (H-set/H-get), and across families (P/D). -/
+theorem pairs_find (s t : List Char) (ci ri : Int)
+    (hs : cellNameToCoordinates s = .ok (ci, ri)) (ht : cellNameToCoordinates t = .ok (ci, ri)) :
+    pairFinds pathPrepare pathGetString s t = some true ∧
+    pairFinds pathDirect pathDirect s t = some true ∧
+    pairFinds pathPrepare pathRichGet s t = some true ∧
+    pairFinds pathLinkSet pathLinkGet s t = some true ∧
+    pairFinds pathPrepare pathDirect s t = some true := by
+  obtain ⟨canon, hc, a1, a2, a3, a4, a5, a6⟩ := paths_canonical s ci ri hs
+  obtain ⟨canon', hc', b1, b2, b3, b4, b5, b6⟩ := paths_canonical t ci ri ht
+  rw [hc] at hc'
+  cases hc'
+  unfold pairFinds
+  simp only [a1, a2, a3, a4, a5, a6, b1, b2, b3, b4, b5, b6, Key.stored, hc]
+  simp
+
+/-- comments, what is true (`…_partial`: the missing hypothesis is `s = t`, the two
+calls must use the *same spelling*): `DeleteComment(t)` finds the comment
+`AddComment(Cell: s)` stored iff `s` is accepted and `t` is literally `s`. -/
+theorem comment_pair_partial (s t : List Char) :
+    pairFinds pathCommentAdd pathCommentDel s t = some true ↔
+      (∃ ci ri, cellNameToCoordinates s = .ok (ci, ri)) ∧ s = t := by
+  unfold pairFinds pathCommentAdd pathCommentDel
+  cases hd : cellNameToCoordinates s with
+  | error e => simp
+  | ok p =>
+    simp only [Key.stored, Option.some.injEq, beq_iff_eq]
+    constructor
+    · intro h; exact ⟨⟨p.1, p.2, rfl⟩, h⟩
+    · intro h; exact h.2
+
+/-- **finding (open)**: comments are keyed by the raw spelling. `AddComment` with
+`Cell: "b2"` stores `Ref="b2"`; `DeleteComment(sheet, "B2")` — another accepted
+spelling of the same cell — compares `cmt.Ref != cell` as strings, does not find
+it and returns nil (and removes the VML shape by coordinates, leaving the comment
+without its shape); `GetComments` reports `Cell: "b2"`. Oracle signature
+`spell:comment-raw-ref`. -/
+theorem finding_comment_raw_ref :
+    cellNameToCoordinates ['b', '2'] = .ok (2, 2) ∧ cellNameToCoordinates ['B', '2'] = .ok (2, 2) ∧
+    pairFinds pathCommentAdd pathCommentDel ['b', '2'] ['B', '2'] = some false ∧
+    pairFinds pathCommentAdd pathCommentDel ['$', 'C', '$', '3'] ['C', '3'] = some false := by
+  refine ⟨by decide +kernel, by decide +kernel, by decide +kernel, by decide +kernel⟩
+
+/-! ## Cell-name APIs that decode through the range decoder (MergeCell, UnmergeCell) -/
+
+/-- what is true (`…_partial`: the missing hypothesis is that both arguments are A1
+references): `MergeCell(sheet, a, b)` with two strict A1 spellings stores a range
+reference that decodes to the sorted rectangle of the two denoted cells. -/
+theorem mergecell_strict_partial (a b : List Char) (c1 r1 c2 r2 : Nat)
+    (ha : parseA1 a = some (c1, r1)) (hb : parseA1 b = some (c2, r2)) :
+    ∃ ref, mergeCellRef a b = some ref ∧
+      rangeRefToCoordinates ref =
+        .ok (sortCoordinates ((c1 : Int), (r1 : Int), (c2 : Int), (r2 : Int))) := by
+  have hA := shape_of_parseA1 ha
+  have hB := shape_of_parseA1 hb
+  have hdec : rangeRefToCoordinates (a ++ [':'] ++ b) =
+      .ok ((c1 : Int), (r1 : Int), (c2 : Int), (r2 : Int)) :=
+    (rangeRef_ok_iff _ _ _ _ _).mpr ⟨c1, r1, c2, r2, rfl, rfl, rfl, rfl,
+      rangeLoose_of_strict ⟨a, b, by simp, hA, hB⟩⟩
+  obtain ⟨_, _, _, _, _, _, _, _, _, _, _, _, a1, a2, _, a3, a4⟩ := hA
+  obtain ⟨_, _, _, _, _, _, _, _, _, _, _, _, b1, b2, _, b3, b4⟩ := hB
+  obtain ⟨x, y, z, w, hsort, hx, hy, hz, hw, _⟩ :=
+    sort_in_grid c1 r1 c2 r2 Facts.MaxColumns Facts.TotalRows ⟨a1, a2⟩ ⟨a3, a4⟩ ⟨b1, b2⟩ ⟨b3, b4⟩
+  obtain ⟨ref, henc, hback⟩ := range_encode_decode x y z w false hx hy hz hw
+  refine ⟨ref, ?_, by rw [hsort]; exact hback⟩
+  unfold mergeCellRef
+  simp only [hdec, hsort, henc]
+
+/-- **finding (open)**: `MergeCell` / `UnmergeCell` take two *cell names* but decode
+`a + ":" + b` with the lenient range decoder: a range passed as the first cell name
+is accepted and the second argument silently ignored (`MergeCell(s, "D1:E2", "F9")`
+merges D1:E2), and `$` is accepted anywhere (`MergeCell(s, "A$$1", "B2")` merges
+A1:B2) — strings that are not A1 references are mapped to coordinates. Oracle
+signatures `rngapi:accept-non-a1:extra-colon-part`, `rngapi:accept-non-a1:stray-dollar`. -/
+theorem finding_mergecell_accepts_non_a1 :
+    (mergeCellRef ['D', '1', ':', 'E', '2'] ['F', '9'] = some ['D', '1', ':', 'E', '2'] ∧
+      parseA1 ['D', '1', ':', 'E', '2'] = none) ∧
+    (mergeCellRef ['A', '$', '$', '1'] ['B', '2'] = some ['A', '1', ':', 'B', '2'] ∧
+      parseA1 ['A', '$', '$', '1'] = none) := by
+  refine ⟨⟨by decide +kernel, by decide +kernel⟩, ⟨by decide +kernel, by decide +kernel⟩⟩
 
 end XlModel.Props.C20
